@@ -57,7 +57,8 @@ def main():
             # escalated runs for the checks whose anchored source changed
             for pid in pids:
                 rcc, outc = sh([os.path.join(ROOT, "check"), pid, "--dry-fingerprint"], cwd=ROOT, env=dict(os.environ, VERIF_REPO=wt))
-                if "CHANGED" in outc:
+                ch = [q for q in outc.strip().partition("CHANGED ")[2].split(",") if q and not q.startswith("module:")]
+                if ch:      # a function the property is anchored in changed (module-level changes alone: see above)
                     escalated.append(pid)
                     rcc, outc = sh([os.path.join(ROOT, "check"), pid], cwd=ROOT, env=dict(os.environ, VERIF_REPO=wt))
                     if rcc != 0 and pid not in alarms:
